@@ -75,6 +75,7 @@ void cmb_process_initialize(struct cmb_process *pp,
     cmi_slist_initialize(&pp->awaits);
     cmi_slist_initialize(&pp->waiters);
     cmi_slist_initialize(&pp->resources);
+    pp->yielding = false;
 }
 
 /*
@@ -131,6 +132,8 @@ void cmb_process_start(struct cmb_process *pp)
     const double t = cmb_time();
     const int64_t pri = pp->priority;
 
+    /* A fresh start, whatever an earlier run of the process was doing when it ended */
+    pp->yielding = false;
     (void)cmb_event_schedule(start_event, pp, NULL, t, pri);
 }
 
@@ -833,6 +836,16 @@ static void resume_event(void *vp, void *arg)
     const int64_t sig = (int64_t)arg;
 
     cmb_logger_info(stdout, "Resumes %s signal %" PRIi64, pp->name, sig);
+
+    /*
+     * For a yielded process only. If a timeout or an interrupt has taken it
+     * out of the yield in this instant and it waits for something else by now,
+     * that wait must not see a signal that was never meant for it.
+     */
+    if (!pp->yielding) {
+        cmb_logger_info(stdout, "%s is no longer yielding, resume dropped", pp->name);
+        return;
+    }
 
     struct cmi_coroutine *cp = (struct cmi_coroutine *)pp;
     cmb_assert_debug(cp->status == CMI_COROUTINE_RUNNING);
